@@ -47,21 +47,40 @@ inductive Seg (α : Type) where
   | reject
   | stuck                                -- fuel exhausted / no edge: unreachable (theorem)
 
+/-- `clampToBound`: a point that rounding left marginally outside the bound is moved onto it. -/
+def clampToBound (box : Bound α) (p : Pt α) : Pt α :=
+  ⟨if p.x < box.lo.x then box.lo.x else if p.x > box.hi.x then box.hi.x else p.x,
+   if p.y < box.lo.y then box.lo.y else if p.y > box.hi.y then box.hi.y else p.y⟩
+
 /-- inner `for { … }` loop: after each `intersect` the moved end is re-coded with the CLOSED
-    `bitCode`, in open mode too. -/
-def segLoop (box : Bound α) : Nat → Pt α → Pt α → Nat → Nat → Seg α
-  | 0, _, _, _, _ => .stuck
-  | fuel+1, a, b, codeA, codeB =>
+    `bitCode`, in open mode too.
+    * `clipsA` / `clipsB` count the `intersect` calls per end: an end that has been clipped twice and is
+      still outside is snapped onto the box (`clampToBound`) and gets the code 0 — with floats this stops
+      the loop from alternating for ever between two edges at a corner;
+    * open bound: a far end that is a vertex ON the boundary (not yet clipped, closed code 0) is its own
+      intersection and is kept as it is (recomputing it could move it by a rounding error).
+    Over exact arithmetic neither changes anything: the clamp branch is never taken and `intersect`
+    returns that vertex (theorem `segLoop_eq_segLoopU`).
+    Fuel: at most 3 rounds per end plus the accepting one, so 8 is never exhausted
+    (theorem `segLoop_ne_stuck`, any arithmetic). -/
+def segLoop (box : Bound α) (isOpen : Bool) : Nat → Pt α → Pt α → Nat → Nat → Nat → Nat → Seg α
+  | 0, _, _, _, _, _, _ => .stuck
+  | fuel+1, a, b, codeA, codeB, clipsA, clipsB =>
     if codeA ||| codeB = 0 then .accept a b codeB
     else if codeA &&& codeB ≠ 0 then .reject
     else if codeA ≠ 0 then
-      match intersect box codeA a b with
-      | some a' => segLoop box fuel a' b (bitCode box a') codeB
-      | none => .stuck
+      if clipsA = 2 then segLoop box isOpen fuel (clampToBound box a) b 0 codeB clipsA clipsB
+      else
+        match intersect box codeA a b with
+        | some a' => segLoop box isOpen fuel a' b (bitCode box a') codeB (clipsA + 1) clipsB
+        | none => .stuck
     else
-      match intersect box codeB a b with
-      | some b' => segLoop box fuel a b' codeA (bitCode box b')
-      | none => .stuck
+      if isOpen = true ∧ clipsB = 0 ∧ bitCode box b = 0 then segLoop box isOpen fuel a b codeA 0 clipsA clipsB
+      else if clipsB = 2 then segLoop box isOpen fuel a (clampToBound box b) codeA 0 clipsA clipsB
+      else
+        match intersect box codeB a b with
+        | some b' => segLoop box isOpen fuel a b' codeA (bitCode box b') clipsA (clipsB + 1)
+        | none => .stuck
 
 /-- state of the outer loop of `line` -/
 structure LineSt (α : Type) where
@@ -74,7 +93,7 @@ structure LineSt (α : Type) where
 def lineStep (box : Bound α) (isOpen : Bool) (st : LineSt α) (a b : Pt α) (last : Bool) : LineSt α :=
   let codeB := if isOpen then bitCodeOpen box b else bitCode box b
   let endCode := codeB
-  match segLoop box 8 a b st.codeA codeB with
+  match segLoop box isOpen 8 a b st.codeA codeB 0 0 with
   | .accept a' b' codeB' =>
     let out := push st.out st.line a'
     if codeB' ≠ endCode then
@@ -91,7 +110,8 @@ def lineLoop (box : Bound α) (isOpen : Bool) : LineSt α → List (Pt α) → L
   | st, a :: b :: rest => lineLoop box isOpen (lineStep box isOpen st a b rest.isEmpty) (b :: rest)
   | st, _ => st
 
-/-- `line(box, in, open)`; `none` = the model got stuck (never happens: theorem). -/
+/-- `line(box, in, open)`; `none` = the model got stuck (never happens, whatever the arithmetic:
+    theorem `line_total_any`). -/
 def line (box : Bound α) (isOpen : Bool) (inp : List (Pt α)) : Option (List (List (Pt α))) :=
   match inp with
   | [] => some []
